@@ -157,6 +157,15 @@ func (p *FunctionBuilder) CreateFunction(m *bmodel.MethodEntry) (*gmodel.Functio
 	if err != nil {
 		return nil, err
 	}
+	if usesElementLoop(assignments) {
+		// The loop that copies slice elements declares "i" and "e": an operand of that name
+		// would be shadowed inside the loop.
+		for _, name := range usedNames {
+			if name == "i" || name == "e" {
+				return nil, logger.Errorf("%v: the name %v is used by the loop that copies slice elements", p.fset.Position(m.Method.Pos()), name)
+			}
+		}
+	}
 
 	preProcess, err := p.buildManipulator(m.Opts.PreProcess, src, dst, additionalArgs, m.RetError())
 	if err != nil {
@@ -182,6 +191,22 @@ func (p *FunctionBuilder) CreateFunction(m *bmodel.MethodEntry) (*gmodel.Functio
 	}
 
 	return fn, nil
+}
+
+// usesElementLoop reports whether one of the assignments, at any nesting depth, copies a slice
+// element by element ("for i, e := range ...").
+func usesElementLoop(assignments []gmodel.Assignment) bool {
+	for _, a := range assignments {
+		switch v := a.(type) {
+		case gmodel.SliceLoopAssignment, gmodel.SliceTypecastAssignment:
+			return true
+		case gmodel.NestStruct:
+			if usesElementLoop(v.Contents) {
+				return true
+			}
+		}
+	}
+	return false
 }
 
 // createVar creates a gmodel.Var from a types.Var.
